@@ -12,7 +12,7 @@
    setValueUnchecked                    set_value_unchecked   (w + mask / w - mask on uint64)
    SetValue / Value                     set_value / value     (only [entryIndex >= size] is checked!)
    Encoding / uInt64toHex               encoding / hex_upper  (memoised in a_memo)
-   Decode                               decode                (writes words while parsing)
+   Decode                               decode                (parses all entries, then stores: fix C09-1)
    zeroOutUnusedArrayEntries            zero_out_unused
    resetCache                           (a_memo := "")
    IsEquivalentTo                       is_equivalent_to
@@ -162,17 +162,22 @@ Fixpoint parse_loop (n : N) (s : string) : option N :=
 Definition parse_uint_hex64 (s : string) : option N :=
   if string_is_empty s then None else parse_loop 0 s.
 
-(* parseEntriesIntoArrayValues: words are overwritten WHILE parsing; the first bad entry returns
-   the error and leaves the entries before it written (and, in Decode, the memo NOT reset). *)
-Fixpoint parse_entries (ws : list N) (index : nat) (entries : list string) : res (list N * bool) :=
+(* parseEntriesIntoArrayValues (after fix C09-1): every entry is parsed into a temporary slice first; the
+   first bad entry returns the error with NOTHING stored; only when all parse does copy(archiveArray, parsed)
+   run.  [copy] copies min(len dst, len src) elements (the two lengths are equal here: Decode has checked
+   the entry count). *)
+Fixpoint parse_all (entries : list string) : option (list N) :=
   match entries with
-  | [] => Ok (ws, true)
+  | [] => Some []
   | e :: es =>
       match parse_uint_hex64 e with
-      | None => Ok (ws, false)
-      | Some v => do ws' <- set_nth index v ws; parse_entries ws' (S index) es
+      | None => None
+      | Some v => option_map (cons v) (parse_all es)
       end
   end.
+
+Definition copy_words (dst src : list N) : list N :=
+  (firstn (List.length dst) src ++ skipn (List.length src) dst)%list.
 
 (* for indexToClear := size; indexToClear <= len*64-1; indexToClear++ { setValueUnchecked(indexToClear, false) } *)
 Fixpoint zero_from (ws : list N) (i : Z) (count : nat) : res (list N) :=
@@ -184,15 +189,16 @@ Fixpoint zero_from (ws : list N) (i : Z) (count : nat) : res (list N) :=
 Definition zero_out_unused (n : nat) (ws : list N) : res (list N) :=
   zero_from ws (Z.of_nat n) (List.length ws * 64 - n)%nat.
 
-(* Decode: (new state, true) = nil error; (new state, false) = error returned *)
+(* Decode: (new state, true) = nil error; (the SAME state, false) = error returned *)
 Definition decode (a : archive) (s : string) : res (archive * bool) :=
   let entries := split_colon s in
   if negb (Nat.eqb (List.length entries) (List.length (a_words a))) then Ok (a, false)      (* wrong number of entries *)
-  else do r <- parse_entries (a_words a) 0 entries;
-       let '(ws, ok) := r in
-       if negb ok then Ok (mk_archive (a_size a) ws (a_memo a), false)           (* parse error: memo kept! *)
-       else do ws' <- zero_out_unused (a_size a) ws;
-            Ok (mk_archive (a_size a) ws' EmptyString, true).
+  else match parse_all entries with
+       | None => Ok (a, false)                                                   (* parse error: nothing stored *)
+       | Some vs =>
+           do ws' <- zero_out_unused (a_size a) (copy_words (a_words a) vs);
+           Ok (mk_archive (a_size a) ws' EmptyString, true)
+       end.
 
 (* IsEquivalentTo: sizes, then  for index := range a.archiveArray { a[index] != b[index] -> false } *)
 Fixpoint words_equal (x y : list N) : res bool :=
@@ -281,13 +287,3 @@ Definition step (a : archive) (o : op) : archive :=
   end.
 
 Definition run (a : archive) (ops : list op) : archive := fold_left step ops a.
-
-(* a decode that writes some words and then fails: right count, first entry parses, a later one does not *)
-Definition decode_is_partial (nw : nat) (s : string) : bool :=
-  let es := split_colon s in
-  Nat.eqb (List.length es) nw
-  && negb (forallb (fun e => match parse_uint_hex64 e with Some _ => true | None => false end) es)
-  && match es with e :: _ => (match parse_uint_hex64 e with Some _ => true | None => false end) | [] => false end.
-
-Definition op_not_partial_decode (nw : nat) (o : op) : bool :=
-  match o with OpDecode s => negb (decode_is_partial nw s) | _ => true end.
